@@ -47,8 +47,8 @@ func (e *VerifEnv) DoChecked(v *RespValue, timeout time.Duration) (reply *RespVa
 	}
 	// whoever still touches the reply does so right after the completion
 	stable = true
-	for i := 0; i < 4 && stable; i++ {
-		time.Sleep(500 * time.Microsecond)
+	for i := 0; i < 2 && stable; i++ {
+		time.Sleep(150 * time.Microsecond)
 		stable = bytes.Equal(atDone, encode(req.Response()))
 	}
 	return verifCopy(req.Response()), false, stable
